@@ -23,6 +23,7 @@ structure Node where
   cid : Bytes
   acceptCid : Bytes
   pub : Bool
+  maxAER : Nat
   txs : List (Nat × Tx)
   blks : List Blk
   best : Nat
@@ -38,7 +39,7 @@ def emptyWorld : World :=
   { nonce := fun _ => 0, led := { bal := fun _ => 0, names := fun _ => none, pend := [] } }
 
 def Node.init : Node :=
-  { cid := [], acceptCid := [], pub := false, txs := [], blks := [], best := 0, accts := [], shown := [], hashes := [], names := [],
+  { cid := [], acceptCid := [], pub := false, maxAER := 0, txs := [], blks := [], best := 0, accts := [], shown := [], hashes := [], names := [],
     pool := Pool.Pool.init, pentries := [], poolW := emptyWorld }
 
 def findTx (nd : Node) (tid : Nat) : Option Tx := (nd.txs.find? (·.1 == tid)).map (·.2)
@@ -100,7 +101,7 @@ def bErr : BErr → String
 
 def short (b : Bytes) : String := hex (b.take 4)
 
-def env (nd : Node) : Env := zeroFeeEnv nd.pub
+def env (nd : Node) : Env := zeroFeeEnv nd.pub nd.maxAER
 
 /-- cost `ValidateWithSenderState` compares with the balance (zero fee) -/
 def costOf (t : Tx) : Nat :=
@@ -130,9 +131,11 @@ def admit (nd : Node) (tid : Nat) (t : Tx) : Node × String :=
     | .insufficient => (nd1, "balance")
     | .same => (nd1, "same")
 
-/-- `MemPoolDel{block}` after a block was executed and connected: `removeOnBlockArrival`. -/
+/-- `MemPoolDel{block}` after a block was executed and connected: `removeOnBlockArrival`. Chain id number: the
+genesis header carries version 0 of the chain id (1), every later block the current version (2) — the first block
+notification therefore takes the "forked" path of `setStateDB` and empties the pool, as in the real node. -/
 def notifyPool (nd : Node) (bid parent : Nat) (W : World) : Node :=
-  let P := nd.pool.blockArrival (bid + 1) (parent + 1) 1 [] (sigmaOf W nd.accts)
+  let P := nd.pool.blockArrival (bid + 1) (parent + 1) 2 [] (sigmaOf W nd.accts)
   { nd with pool := P, poolW := W }
 
 def txsOf (nd : Node) (tids : List Nat) : Option (List Tx) := tids.mapM (findTx nd)
@@ -268,17 +271,17 @@ def poolLine (nd : Node) : String :=
 
 def step (nd : Node) (line : String) : Node × String :=
   match words line with
-  | "new" :: cid :: acid :: pub :: g :: addrs =>
-    match unhex cid, unhex acid, g.toNat?, addrs.mapM unhex with
-    | some cid, some acid, some g, some addrs =>
+  | "new" :: cid :: acid :: pub :: mx :: g :: addrs =>
+    match unhex cid, unhex acid, mx.toNat?, g.toNat?, addrs.mapM unhex with
+    | some cid, some acid, some mx, some g, some addrs =>
       let W : World := { nonce := fun _ => 0,
                          led := { bal := fun a => if addrs.contains a then g else 0, names := fun _ => none, pend := [] } }
       let accts := addrs ++ [aergoName]
       let P := (Pool.Pool.init.setStateDB 1 0 1 (sigmaOf W accts)).1
-      ({ Node.init with cid := cid, acceptCid := acid, pub := pub == "1", accts := accts, shown := accts,
+      ({ Node.init with cid := cid, acceptCid := acid, pub := pub == "1", maxAER := mx, accts := accts, shown := accts,
                         blks := [{ id := 0, parent := 0, height := 0, txs := [], post := some W }],
                         pool := P, poolW := W }, "ok")
-    | _, _, _, _ => (nd, "bad-op")
+    | _, _, _, _, _ => (nd, "bad-op")
   | ["tx", tid, nonce, acct, rcpt, amt, payload, gl, gp, ty, cid, sig, hash, size, gov, cmd] =>
     match tid.toNat?, nonce.toNat?, unhex acct, unhex rcpt, unhex amt, unhex payload, gl.toNat?, unhex gp, ty.toNat?,
           unhex cid, size.toNat?, parseVErr gov, parseCmd cmd with
@@ -302,7 +305,7 @@ def step (nd : Node) (line : String) : Node × String :=
   | ["validate", tid, cid, pub] =>
     match tid.toNat?.bind (findTx nd), unhex cid with
     | some t, some cid =>
-      (nd, match validate Hid cid (pub == "1") t with | none => "ok" | some e => vErr e)
+      (nd, match validate Hid nd.maxAER cid (pub == "1") t with | none => "ok" | some e => vErr e)
     | _, _ => (nd, "bad-op")
   | ["vtx", tid] =>
     match tid.toNat?.bind (findTx nd) with
